@@ -17,6 +17,7 @@ type monitors struct {
 	byWhom    map[uint64]int
 	seenSaved map[int]int // node id -> number of SavedBlock entries already examined
 	heights   map[int]uint64
+	c01       *c01state
 	c03       *c03state
 	c19       *c19state
 	c12       *c12state
@@ -26,7 +27,7 @@ type monitors struct {
 }
 
 func newMonitors(s *Sim) *monitors {
-	return &monitors{s: s, committed: map[uint64]common.Hash{}, byWhom: map[uint64]int{}, seenSaved: map[int]int{}, heights: map[int]uint64{}, c03: newC03(), c19: newC19(), c12: newC12()}
+	return &monitors{s: s, committed: map[uint64]common.Hash{}, byWhom: map[uint64]int{}, seenSaved: map[int]int{}, heights: map[int]uint64{}, c01: newC01(), c03: newC03(), c19: newC19(), c12: newC12()}
 }
 
 func firstLine(s string) string {
@@ -96,6 +97,9 @@ func (m *monitors) afterQuiescence() {
 	}
 	if !m.afterRestart {
 		m.checkSignatures()
+		if !s.failedNow() {
+			m.checkQuorumLock()
+		}
 	}
 	if s.failedNow() {
 		return
